@@ -37,6 +37,8 @@ def hcase(c, b, names, tables):
     # ... and from a non-zero porosity (the effective porosity is clamped at zero)
     h["isv0"] = {"Porosity": c["f0"]}
     h["mpdefault"] = [0, 1]
+    if c.get("twin"):
+        h["twin"] = names[c["twin"]]
     h["par"]["theta"] = c["theta"]
     h["law"]["theta"] = c["theta"]
     if b["fam"] == "hand":   # the probe: a Norton law with exponent 3
@@ -82,6 +84,7 @@ def run(ctx):
     # vacuity
     probes = [m for m in merged if m["cfg"]["pot"] == "Probe"]
     real = [m for m in merged if m["cfg"]["pot"] != "Probe"]
+    twins = [m for m in real if m.get("twin") and m.get("twin_steps", 0) >= 1]
     if ctx.replay_only is None:
         if not probes or not all(any(x["blk"] == "dfp_ddeel" and x["cls"] > -5 and x["bad"] >= 3 for x in m["blocks"]) for m in probes):
             raise Broken("the probe with a wrong jacobian block was not reported: the comparison facility is not exercised")
@@ -91,6 +94,8 @@ def run(ctx):
         for m in real:
             byk[m["bkey"]].append(m)
         dead = [k for k, ms in byk.items() if ms[0]["cfg"]["flow"] != "none" and not any(m["active"] for m in ms)]
+        if not twins:
+            raise Broken("no path could be cross-checked with its numerical-jacobian variant")
         if dead:
             raise Broken("configurations whose flow never became active on any path: %s" % dead[:5])
         if stuck:
@@ -102,6 +107,8 @@ def run(ctx):
         "evaluations": len(obs), "distinct_nontrivial": sum(1 for m in real if m["active"]), "programs": len(behaviours),
         "configurations": len({m["bkey"] for m in real}), "blocks_judged": nblocks, "reports_parsed": nreports,
         "block_classes": {str(k): v for k, v in sorted(classes.items())},
+        "paths_cross_checked_with_a_numerical_jacobian_variant": len(twins),
+        "cross_check_classes": {str(k): v for k, v in sorted(collections.Counter(m["twin_cls"] for m in twins).items())},
         "paths_stopped_by_a_failure": sum(1 for m in real if m["steps_ok"] < m["steps"]), "rejected_observations": len(bad),
         "exhaustive": True, "gen_module": "mfront/BricksGen", "judge_module": "mfront/BricksJudge",
         "rule": "brick configurations enumerated by TLC (quick: every level of every factor once; thorough: every valid pair of levels of "
